@@ -20,7 +20,13 @@ Extractors are registered per property in EXTRACTORS below (properties without a
                                       the number the doc comment of banded::Aligner states for MAX_CELLS ("currently set to …")
   C01 C02        Gen/TbCodes.lean     I_POS, D_POS, S_POS, TB_* (pairwise/mod.rs), the 0b1111 field mask
   C03 C04        Gen/Occ.lean         the `self.k > 64` threshold in `Occ::get` (data_structures/bwt.rs)
-  C08            Gen/SrcKmpLps.lean   whole function `lps` of pattern_matching/kmp.rs, translated by tools/rs2lean.py
+  C08            Gen/SrcKmpLps.lean, SrcShiftAndMasks.lean, SrcHorspoolNew.lean
+  C18            Gen/SrcFenwick.lean, SrcBitEnc.lean
+  C04            Gen/SrcBwt.lean, SrcPrescan.lean
+                                      whole function bodies (kmp::lps, KMP::delta, shift_and::masks, Horspool::new,
+                                      FenwickTree::get/set, bitenc mask/addr/get_by_addr/set_by_addr, bwt::bwt,
+                                      utils::prescan) translated to Lean by tools/rs2lean.py; the equality theorems
+                                      with the mirror models (Thm/GenSrc*.lean) are restated in Thm/C08|C18|C04.lean
 
 RbV/Thm/C01.lean and RbV/Thm/C02.lean import RbV.Thm.GenLimits / RbV.Thm.GenTbCodes and restate their theorems as
 property theorems, and the C01/C02 spec/reference files (`Spec/Align.lean` `minScore`, `Ref/Banded.lean` `maxCells`) are
